@@ -70,6 +70,7 @@ def attr_c19(ev, names):
 
 PROPS = {
     "C01": dict(
+        level_text='RoundOnce (exact value rounded once) is validated against an independent relational restatement, idempotence, monotonicity and the bracket laws by TLC (MC_Round); the implementation-shaped AlgRound refines it (MC_AlgRound, with the pinned tree as negative control); every recorded Add/Sub/Mul/Quo/Abs/Neg/Round/context-parse call over the spec-exported boundary domain S, the seeded domain L and the GDA vectors is validated by TLC against Spec_<Op>.',
         mc=[("MC_BigNat", None), ("MC_Round", None), ("MC_AlgRound", None), ("MC_AlgRound", "MC_AlgRound_pinned", "expect-violation")],
         drivers=["arithS", "arithL", "ctxparse", "vectors:add,sub,mul,quo,abs,neg,round"],
         attr=attr_c01,
@@ -78,6 +79,7 @@ PROPS = {
              "(not a NaN/Inf prologue); distinct = distinct (op, ctx, operands) cases",
     ),
     "C02": dict(
+        level_text="The flag laws are theorems of RoundOnce checked by TLC (MC_Round!FlagThm); every recorded arithmetic event's decided condition bits must equal the spec's, with the stated implications; AlgQuo's pinned 'no sticky digit' variant is a negative control.",
         mc=[("MC_Round", None), ("MC_AlgQuo", "MC_AlgQuo_nosticky", "expect-violation")],
         drivers=["arithS", "arithL", "intS", "roots", "vectors:add,sub,mul,quo,quoint,rem,round,quantize,tointx,reduce,sqrt,abs,neg"],
         attr=attr_c02,
@@ -85,12 +87,14 @@ PROPS = {
              "Overflow=>Inexact, Underflow=>Subnormal&Inexact, no bit outside the 12 conditions",
     ),
     "C07": dict(
+        level_text="Fits(ctx, result) is a theorem of RoundOnce (MC_Round!FitsThm) and of AlgQuo (MC_AlgQuo, with the pinned 'no carry fix' variant as negative control); it is a conjunct on every recorded finite result of every rounding operation.",
         mc=[("MC_Round", None), ("MC_AlgQuo", None), ("MC_AlgQuo", "MC_AlgQuo_nocarry", "expect-violation")],
         drivers=["arithS", "arithL", "intS", "intL", "vectors:add,sub,mul,quo,quoint,rem,abs,neg,round,quantize,reduce,sqrt,cbrt"],
         attr=attr_c07,
         rule="Fits(ctx, result) on every finite result of a rounding operation",
     ),
     "C08": dict(
+        level_text='The special-value prologues of Arith (NaN selection, infinities, zeros, the GDA power table) judge every recorded call of every operation over the full product of special operands (incl. infinities/NaNs with stale fields, aliased NaN destinations) and contexts, exhaustively.',
         mc=[("MC_Round", None)],
         drivers=["specials", "vectors:add,sub,mul,quo,quoint,rem,abs,neg,round,quantize,reduce,tointx,tointv,cmp,sqrt,cbrt"],
         attr=attr_c08,
@@ -98,12 +102,14 @@ PROPS = {
              "contexts, exhaustively, judged by the special-value prologues of Arith/Roots/Transc",
     ),
     "C09": dict(
+        level_text="Spec_Quantize / Spec_ToInt / Spec_CeilFloor (one definition for every magnitude) judge recorded events; AlgQuantize refines the spec (MC_AlgQuantize) with the pinned 'mode ignored' variant as negative control.",
         mc=[("MC_Round", None), ("MC_AlgQuantize", None), ("MC_AlgQuantize", "MC_AlgQuantize_nomode", "expect-violation")],
         drivers=["intS", "intL", "vectors:quantize,tointx,tointv"],
         attr=attr_c09,
         rule="Quantize / RoundToIntegral* / Ceil / Floor events judged by Spec_Quantize, Spec_ToInt, Spec_CeilFloor",
     ),
     "C10": dict(
+        level_text='Spec_QuoInt / Spec_Rem are defined by the division identity over exact limb arithmetic and judge every recorded QuoInteger/Rem pair on S, L (gaps to 150 digits) and the GDA vectors.',
         mc=[("MC_Round", None)],
         drivers=["intS", "intL", "vectors:quoint,rem"],
         attr=attr_c10,
@@ -118,6 +124,7 @@ def attr_group(*gks):
 
 
 PROPS["C20"] = dict(
+    level_text="The rounding kernel's bracket/mirror/half-pair laws are proved for all naturals with TLAPS (4 obligations, re-checked every run) and model-checked on RoundOnce; recorded groups (8 modes, swapped/negated/scaled operands, ascending Round inputs) are validated by TraceRel, which imports no arithmetic oracle; ShouldAddOne is bound to the kernel exhaustively.",
     mc=[("MC_Round", None)],
     drivers=[("modes", "TraceRel"), ("rel", "TraceRel"), ("shouldaddone", "TraceRel")],
     tlaps="proofs/Kern.tla",
@@ -138,6 +145,7 @@ def attr_c03(ev, names):
 
 
 PROPS["C03"] = dict(
+    level_text='MC_ErrDec model-checks the ErrDecimal machine (sticky error, skip after error, flags grow, frame); recorded trap groups (one call under the empty and 32+ trap sets) are validated relationally by TraceRel; recorded ErrDecimal histories are validated step by step with the same EdStep operator.',
     mc=[("MC_ErrDec", None)],
     drivers=[("traps", "TraceRel"), "errdec"],
     attr=attr_c03,
@@ -145,6 +153,7 @@ PROPS["C03"] = dict(
          "TraceRel.tla checks the trap relation between the recorded outcomes; ErrDecimal edges/histories validated against ErrDec.tla",
 )
 PROPS["C05"] = dict(
+    level_text='Recorded groups of the same call under every aliasing pattern (real pointer identity) must have identical outcomes (TraceRel); BigInt histories with aliased receivers/arguments are validated by BigIntM; Modf with outputs aliasing the receiver by Conv.',
     mc=[],
     drivers=[("alias", "TraceRel")],
     attr=attr_group("alias"),
@@ -165,6 +174,7 @@ def attr_c06(ev, names):
 
 
 PROPS["C06"] = dict(
+    level_text='Recorded groups of the same call into 7 destination pre-states must be identical; register-machine histories are validated with CtxStep against the reference outcome of the same call on clones (history independence, frame, Context and package-state digests unchanged).',
     mc=[("MC_ErrDec", None)],
     drivers=[("pre", "TraceRel"), "machine", "parse", "codec"],
     attr=attr_c06,
@@ -172,6 +182,7 @@ PROPS["C06"] = dict(
 )
 
 PROPS["C15"] = dict(
+    level_text='MC_Order checks the order axioms of CmpTotalSpec/CmpSpec on 66^3 triples; recorded comparisons are validated against them and observed 6x6 result matrices against the axioms without an oracle.',
     mc=[("MC_Order", None)],
     drivers=["order"],
     attr=lambda ev, names: ev.get("k") in ("o", "om"),
@@ -181,6 +192,7 @@ PROPS["C15"] = dict(
 )
 
 PROPS["C19"] = dict(
+    level_text='NumDigits judged against the limb length for every decimal-digit boundary to 10^12000 and seeded values; Reduce (Context and Decimal) judged by value, no trailing zero, count, with destination pre-states.',
     mc=[("MC_BigNat", None)],
     drivers=["numdigits", "reduceL"],
     attr=attr_c19,
@@ -195,6 +207,7 @@ def attr_t(tks, nameset):
 
 
 PROPS["C14"] = dict(
+    level_text='ParseSpec (functional) and the grammar automaton accept the same language (MC_Text, all strings to length 4/5 over 16 symbols); recorded parse events (all short strings, sentences and mutations, bytes) and formatting events are validated against ParseSpec, ToSci/TextOf and FmtPad.',
     mc=[("MC_Text", None)],
     drivers=["parse", "format"],
     attr=attr_t({"parse", "text", "format"}, {"accept", "nilret", "parse-val", "parse-pre", "text", "format", "panic"}),
@@ -204,6 +217,7 @@ PROPS["C14"] = dict(
          "and FmtPad",
 )
 PROPS["C13"] = dict(
+    level_text='Every text form is parsed back and compared with the original (relational); MC_Text proves at the spec level that every text form is a grammar sentence that parses back; float64 values are judged as exact dyadic rationals (NearestFin, Shortest).',
     mc=[("MC_Text", None)],
     drivers=["format", "codec"],
     attr=lambda ev, names: (fam(ev, "t") and ev.get("tk") == "text" and any_in(names, {"rt", "panic"}))
@@ -213,6 +227,7 @@ PROPS["C13"] = dict(
 )
 
 PROPS["C17"] = dict(
+    level_text='Int64Spec, ModfOK, NearestFloat over exact integers / dyadic rationals judge recorded conversions on boundary and seeded values.',
     mc=[("MC_BigNat", None)],
     drivers=["conv"],
     attr=lambda ev, names: fam(ev, "cv") and ev.get("ck") in ("int64", "setint", "float64", "modf"),
@@ -222,6 +237,7 @@ PROPS["C17"] = dict(
 )
 
 PROPS["C16"] = dict(
+    level_text='MC_BigInt model-checks the representation machine (negative-zero fast path as negative control); recorded method histories on three registers with a math/big mirror are validated: defined semantics for the core, mirror equality for the rest, zero/frame/representation invariants after every step.',
     mc=[("MC_BigNat", None), ("MC_BigInt", None)],
     drivers=["bigint"],
     attr=lambda ev, names: fam(ev, "bh"),
@@ -234,6 +250,7 @@ PROPS["C16"] = dict(
 )
 
 PROPS["C11"] = dict(
+    level_text='SqrtOK / SqrtSubOK / CbrtOK accept by integer inequalities only (no root computed); MC_Roots validates them on small integers incl. the power-of-ten boundary; recorded Sqrt/Cbrt events on boundary-aimed operands are validated.',
     mc=[("MC_Roots", None)],
     drivers=["roots", "vectors:sqrt,cbrt"],
     attr=lambda ev, names: fam(ev, "a") and ev["op"] in ("sqrt", "cbrt") and any_in(names, {"root", "val", "panic", "sys", "wf"}),
@@ -243,6 +260,7 @@ PROPS["C11"] = dict(
 )
 
 PROPS["C12"] = dict(
+    level_text='ExpEnclS encloses exp with exact limb arithmetic and directed rounding (self-checked by MC_Transc: ordering, width, known digits, composition, verified ln 10, negative controls); a recorded Exp/Ln/Log10/Pow result is rejected only if provably more than one unit from the enclosure; Pow uses an untrusted hint the spec verifies first.',
     mc=[("MC_Transc", None)],
     mc_workers=1,
     drivers=["transc"],
@@ -267,6 +285,7 @@ def attr_c04(ev, names):
 
 
 PROPS["C04"] = dict(
+    level_text="AlgLoops model-checks termination of the iteration loops under fairness (the pinned Ln loop's lasso is a negative control); every exported entry point is called under recover and a watchdog and the call/return trace is validated: no action admits a panic or timeout; parsed values must be well formed.",
     mc=[("AlgLoops", None), ("AlgLoops", "AlgLoops_pinned", "expect-violation")],
     drivers=["total", "parse", "numdigits", "bigint"],
     api_coverage=True,
@@ -281,6 +300,7 @@ PROPS["C04"] = dict(
 PROPS["C16"]["mc"] = [("MC_BigNat", None), ("MC_BigInt", None), ("MC_BigInt", "MC_BigInt_buggy", "expect-violation")]
 
 PROPS["C18"] = dict(
+    level_text='Conc model-checks all interleavings of the borrow/read/write steps of 3 processes (view-write defect as negative control); 8 goroutines run 160 cases per round on shared Contexts/operands under the Go race detector and every outcome is validated against the call run alone.',
     mc=[("Conc", None), ("Conc", "Conc_viewwrite", "expect-violation")],
     race=True,
     drivers=["conc"],
